@@ -289,7 +289,7 @@ def replay(ctx, w):
         pats = w['patterns'] if isinstance(w['patterns'], str) else list(w['patterns'])
         exc = list(w['exclude']) if w.get('exclude') is not None else None
         rng = random.Random(0)
-        names = ['a', 'b', 'A', '.a', 'ab', 'a/b', 'b/a', 'aa', w.get('name', 'a')]
+        names = ['a', 'b', 'A', '.a', 'ab', 'a/b', 'b/a', 'aa', w.get('name', 'a')] + SWEEP_NAMES
         check_call(ctx, mod, pats, exc, list(w['flags']), names, 'replay')
     elif 'tree' in w:
         spec = [tuple(x) for x in w['tree']]
